@@ -42,6 +42,16 @@ POOL_MAX = 4
 MAX_ROWS = 80
 
 
+class SourceFailed(Exception):
+    pass
+
+
+def failing_iter(items):
+    for x in items:
+        yield x
+    raise SourceFailed('the iterator failed')
+
+
 class _Sink(object):
     def write(self, s):
         return len(s)
@@ -177,6 +187,11 @@ class GridMachine(BaseCheck):
                 if r.random() < 0.1:
                     o['bad_at'] = r.randrange(len(rs) + 1)
                     o['bad'] = r.randrange(len(NON_DICTS))
+                elif r.random() < 0.08:
+                    # the source of the rows fails part-way (a generator reading from a connection that drops): the
+                    # rows handed over so far, or some of them, are in; what follows behaves like a list again
+                    o['raise_at'] = r.randrange(len(rs) + 1)
+                    o['as'] = 'gen'
                 ops.append(o); lens[g] += len(rs)
             elif op == 'set':
                 ops.append({'op': 'set', 'g': g, 'i': idx(), 'r': rr})
@@ -396,10 +411,18 @@ class GridMachine(BaseCheck):
                         seq = rs[:at] + [non_dict(hs, o['bad'])] + rs[at:]
                         allow_prefix = rs[:at]
                         mexc = TypeError('non-dict row')
+                    elif 'raise_at' in o:
+                        at = min(o['raise_at'], len(rs))
+                        seq = rs[:at]
+                        allow_prefix = rs[:at]
+                        mexc = SourceFailed('the iterator failed')
                     else:
                         seq = list(rs)
                         model.extend(rs)
                     arg = seq if o.get('as') == 'list' else tuple(seq) if o.get('as') == 'tuple' else (x for x in seq)
+                    if 'raise_at' in o:
+                        arg = failing_iter(seq)
+                        stats['fault.row_source_fails_midway'] = stats.get('fault.row_source_fails_midway', 0) + 1
                     if op == 'extend':
                         g.extend(arg)
                     else:
